@@ -120,13 +120,12 @@ def wf_reason(line):
     import re
     m = re.match(r"node (\d+) \((\d+)\) listed twice", why)
     if m:
-        return "a %s node is listed twice" % NAMES.get(int(m.group(2)), "cls%s" % m.group(2))
+        return "a node is listed twice"
     m = re.match(r"parent link of (\d+) is (\d+), listed by (\d+)", why)
     if m:
         d = {c[0]: c for c in cells}
         k, p = int(m.group(1)), int(m.group(2))
-        return "stale parent link on a %s node (%s)" % (NAMES.get(d[k][1], "cls%d" % d[k][1]),
-                                                        "None" if p == 0 else ("outside the tree" if p not in d else "another node"))
+        return "stale parent link (%s)" % ("None" if p == 0 else ("outside the tree" if p not in d else "another node"))
     if "has children" in why:
         return "a text node has children"
     return re.sub(r"\d+", "N", why)
@@ -137,18 +136,20 @@ def evaluate(exe, results, space):
     Returns (per-doc findings, tie disagreements, stats)."""
     lines = []
     index = {}
+    pyv = {}
     for r in results.values():
         if r.get("status") != "ok":
             continue
-        ls = [ln for _lab, ln in r["snaps"]]
+        ls = [(ln, pv) for _lab, ln, pv in r["snaps"]]
         ca = r.get("clean_all") or {}
         for k in ("before", "after"):
             if ca.get(k):
-                ls.append(ca[k])
-        for ln in ls:
+                ls.append((ca[k], ca.get("pv_" + k)))
+        for ln, pv in ls:
             if ln not in index and not (r.get("cycle")):
                 index[ln] = len(lines)
                 lines.append(ln)
+                pyv[ln] = pv
     outs = run_model(exe, ["S " + ln for ln in lines])
     verdict = {}
     dis = []
@@ -158,20 +159,11 @@ def evaluate(exe, results, space):
             dis.append("model gave no verdict (%r) on snapshot %s" % ((o or "")[:60], ln[:200]))
             continue
         verdict[ln] = v
-        # cross-check with the untrusted Python reading of the same snapshot
-        root, cells = S.parse_line(ln)
-        pw = S.py_wf(root, cells) is None
-        if pw != v[0]:
-            dis.append("wfb=%s but python reading says %s on %s" % (v[0], pw, ln[:300]))
-        elif pw:
-            pc = S.py_contract(root, cells) is None
-            if pc != v[1]:
-                dis.append("contractb=%s but python reading says %s on %s" % (v[1], pc, ln[:300]))
-            if [tuple(x) for x in S.py_cwords(root, cells)] != v[2]:
-                dis.append("cwords differ on %s" % ln[:300])
-            pt = S.py_tables(root, cells)
-            if pt != v[3]:
-                dis.append("table_dims differ on %s: %r vs %r" % (ln[:200], pt, v[3]))
+        # cross-check with the untrusted Python reading of the same snapshot (computed in the harness)
+        dm = S.digest_model(*v)
+        if pyv[ln] is not None and dm != pyv[ln]:
+            what = ["wfb", "contractb", "cwords", "table_dims"][[a == b for a, b in zip(dm, pyv[ln])].index(False)]
+            dis.append("%s: model and python reading differ on %s" % (what, ln[:300]))
     findings = {}
     for did, r in results.items():
         f = {"c05": [], "c06": [], "c07": [], "changed": []}
@@ -181,11 +173,11 @@ def evaluate(exe, results, space):
         broken_at = None
         if r.get("cycle"):
             broken_at = r["cycle"][0]
-            f["c05"].append(("wf-broken after %s: cycle" % broken_at.split(":")[-1], ["wf", broken_at], "the tree contains a cycle after %s" % broken_at))
+            f["c05"].append(("wf-broken after %s" % broken_at.split(":")[-1], ["wf", broken_at], "the tree contains a cycle after %s" % broken_at))
         prev_cw = None
         first_cw = None
         loss_pass = None
-        for lab, ln in r["snaps"]:
+        for lab, ln, _pv in r["snaps"]:
             f["changed"].append(lab.split(":")[-1])
             v = verdict.get(ln)
             if v is None:
@@ -193,7 +185,7 @@ def evaluate(exe, results, space):
             if not v[0] and broken_at is None:
                 broken_at = lab
                 why = wf_reason(ln)
-                f["c05"].append(("wf-broken after %s: %s" % (lab.split(":")[-1], why), ["wf", lab],
+                f["c05"].append(("wf-broken after %s" % lab.split(":")[-1], ["wf", lab],
                                  "after %s the document is not a proper tree (%s)" % (lab, why)))
             if v[0]:
                 lw = S.labelled(v[2])
@@ -222,7 +214,7 @@ def evaluate(exe, results, space):
         vb = verdict.get(ca.get("before"))
         if va is not None:
             if not va[0] and broken_at is None:
-                f["c05"].append(("wf-broken after clean_all: %s" % wf_reason(ca["after"]), ["wf", "clean_all"], "after clean_all the document is not a proper tree"))
+                f["c05"].append(("wf-broken after clean_all", ["wf", "clean_all"], "after clean_all the document is not a proper tree"))
             elif va[0] and not va[1]:
                 root, cells = S.parse_line(ca["after"])
                 why = S.py_contract(root, cells) or ""
@@ -234,27 +226,42 @@ def evaluate(exe, results, space):
             if space == 2 and va[0] and vb is not None and vb[0]:
                 c7 = S.c07_compare(vb[2], vb[3], va[2])
                 if c7:
-                    ctx = ""
+                    def where(x):
+                        return "in a reference" if x[3] else ("in a table" if x[4] else ("in a list" if x[2] else "in running text"))
                     if c7[0] in ("word-lost", "word-duplicated"):
                         cnt_b = collections.Counter(x[0] for x in vb[2])
                         cnt_a = collections.Counter(x[0] for x in va[2])
                         odd = set((cnt_b - cnt_a).keys()) | set((cnt_a - cnt_b).keys())
-                        where = set()
-                        for w, _s, d, rf, tb in vb[2]:
-                            if w in odd:
-                                where.add("in a reference" if rf else ("in a table" if tb else ("in a list" if d else "in running text")))
-                        ctx = " " + "/".join(sorted(where))
-                    f["c07"].append(("%s%s (first change of the word stream: %s)" % (c7[0], ctx, f.get("first_word_change", "?")),
-                                     ["c07", c7[0]], c7[1]))
+                        # the pass at which each such word's count first changes (direct-run snapshots)
+                        fps = {}
+                        for x in vb[2]:
+                            if x[0] not in odd:
+                                continue
+                            at = "?"
+                            for lab, ln, _pv in r["snaps"]:
+                                v = verdict.get(ln)
+                                if v and v[0] and sum(1 for y in v[2] if y[0] == x[0]) != cnt_b[x[0]]:
+                                    at = lab.split(":")[-1]
+                                    break
+                            fps.setdefault(("%s %s by %s" % (c7[0], where(x), at), where(x), at), []).append(x[0])
+                        for (fp, wh, at), ws in sorted(fps.items()):
+                            f["c07"].append((fp, ["c07", c7[0], wh, at], "%s: word ids %r" % (fp, ws[:8])))
+                    else:
+                        f["c07"].append(("%s (first change of the word stream: %s)" % (c7[0], f.get("first_word_change", "?")),
+                                         ["c07", c7[0]], c7[1]))
     return findings, dis, {"snapshots": len(lines)}
 
 
 def explore(run, src, exe, space, ndocs, limit):
+    import time
+    t0 = time.time()
     docs = gen_docs(run.rng, space, ndocs)
     jobs = [{"id": i, "text": t, "full": True} for i, t in enumerate(docs)]
     results = run_sharded("vt.harness.c05_impl", ["run", str(limit)], jobs, src)
+    t1 = time.time()
     missing = [j["id"] for j in jobs if j["id"] not in results]
     findings, dis, st = evaluate(exe, results, space)
+    core.log("[c05] space %d: %d docs, real code %.1fs, model+oracles %.1fs" % (space, len(docs), t1 - t0, time.time() - t1))
     return docs, results, findings, dis, missing, st
 
 
@@ -266,29 +273,33 @@ def confirm(src, exe, text, space, prop, fp, limit):
     return any(x[0] == fp for x in findings[0][prop])
 
 
-def report_hits(run, src, exe, space, docs, findings, prop, limit, max_shrink=12):
+def report_hits(run, src, exe, space, docs, findings, prop, limit, max_shrink=8):
     """group by fingerprint, shrink the smallest witness inside the harness, confirm with the extracted checker"""
     groups = {}
     for did, f in findings.items():
         for fp, key, what in f[prop]:
             g = groups.setdefault(fp, [])
-            g.append((len(docs[did]), did, key, what))
+            # prefer a witness showing only this finding (the shrinker then cannot drift to another one)
+            g.append((len(f[prop]) > 1, len(docs[did]), did, key, what))
     todo = []
     for fp, g in sorted(groups.items()):
         g.sort()
         todo.append((fp, g[0], len(g)))
     shrunk = {}
     if todo:
-        jobs = [{"id": i, "text": docs[g[1]], "key": g[2]} for i, (fp, g, _n) in enumerate(todo[:max_shrink])]
+        jobs = [{"id": i, "text": docs[g[2]], "key": g[3]} for i, (fp, g, _n) in enumerate(todo[:max_shrink])]
         out = run_sharded_shrink(jobs, src, limit)
         for i, (fp, g, _n) in enumerate(todo[:max_shrink]):
             t = out.get(i)
-            if t is not None and t != docs[g[1]] and confirm(src, exe, t, space, prop, fp, limit):
+            if t is not None and t != docs[g[2]] and confirm(src, exe, t, space, prop, fp, limit):
                 shrunk[fp] = t
     for fp, g, n in todo:
-        text = shrunk.get(fp, docs[g[1]])
-        run.hit(fingerprint="%s space%d: %s" % (run.prop, space, fp) if False else "%s: %s" % (run.prop, fp),
-                what="%s  [%d documents of space %d; minimised wikitext: %r]" % (g[3], n, space, text[:300]),
+        text = shrunk.get(fp, docs[g[2]])
+        if "timeout" in fp and fp not in shrunk and not confirm(src, exe, text, space, prop, fp, limit * 2):
+            core.log("[c05] time-out not reproduced with twice the limit, dropped: %s" % fp)
+            continue
+        run.hit(fingerprint="%s: %s" % (run.prop, fp),
+                what="%s  [%d documents of space %d; minimised wikitext: %r]" % (g[4], n, space, text[:300]),
                 replay={"text": text, "space": space, "prop": prop, "fingerprint": fp, "minimised": fp in shrunk, "limit": limit})
     return groups
 
@@ -324,21 +335,22 @@ def _collect(j, p):
 
 
 def coverage(run, space, docs, results, findings):
-    st = collections.Counter(r.get("status") for r in results.values())
-    act = collections.Counter()
-    sizes = collections.Counter()
+    acc = run.notes.setdefault("_cov%d" % space, {"documents": 0, "status": collections.Counter(), "sizes": collections.Counter(),
+                                                  "act": collections.Counter()})
+    acc["documents"] += len(docs)
+    acc["status"].update(r.get("status") for r in results.values())
     for did, r in results.items():
         if r.get("status") != "ok":
             continue
         for lab in findings[did]["changed"][1:]:
-            act[lab] += 1
+            acc["act"][lab] += 1
         nn = r["snaps"][0][1].count(";") if r.get("snaps") else 0
-        sizes["<=20 nodes" if nn <= 20 else "<=100 nodes" if nn <= 100 else "<=500 nodes" if nn <= 500 else ">500 nodes"] += 1
+        acc["sizes"]["<=20 nodes" if nn <= 20 else "<=100 nodes" if nn <= 100 else "<=500 nodes" if nn <= 500 else ">500 nodes"] += 1
         run.count(hashlib.blake2b(docs[did].encode("utf8", "replace"), digest_size=8).hexdigest(), nontrivial=len(r.get("snaps", [])) > 1)
     d = run.coverage.setdefault("input_distribution", {})
-    d["space%d" % space] = {"documents": len(docs), "status": dict(st), "tree_sizes_after_build": dict(sizes),
-                            "documents_in_which_a_pass_changed_the_tree": dict(act),
-                            "passes_never_changing_a_tree": sorted(set(PASS_NAMES) - set(act))}
+    d["space%d" % space] = {"documents": acc["documents"], "status": dict(acc["status"]), "tree_sizes_after_build": dict(acc["sizes"]),
+                            "documents_in_which_a_pass_changed_the_tree": dict(acc["act"]),
+                            "passes_never_changing_a_tree": sorted(set(PASS_NAMES) - set(acc["act"]))}
 
 
 PASS_NAMES = []
@@ -367,24 +379,37 @@ def monitor(run, prop, spaces, src, exe):
         findings, dis, st = evaluate(exe, res, sp)
         all_dis += dis
         report_hits(run, src, exe, sp, [c["text"]], findings, prop, limit, max_shrink=0)
+    seen_fp = set()
     for space in spaces:
-        docs, results, findings, dis, missing, st = explore(run, src, exe, space, ndocs, limit)
-        if missing:
-            run.obligation("harness answered for every document (space %d)" % space, False, "%d documents without result, e.g. %r" % (len(missing), docs[missing[0]][:200]))
-        all_dis += dis
-        nsnap += st["snapshots"]
-        if not PASS_NAMES:
-            try:
-                from vt.gen import c06_api
-                PASS_NAMES.extend(c06_api.analyse(src)["cleaner_methods"])
-            except Exception:
-                pass
-        coverage(run, space, docs, results, findings)
-        report_hits(run, src, exe, space, docs, findings, prop, limit)
-        for did in sorted(results)[:2]:
-            r = results[did]
-            run.sample({"space": space, "wikitext": docs[did][:300], "status": r.get("status"),
-                        "passes_that_changed_the_tree": findings[did]["changed"][1:]})
+        left = ndocs
+        first = True
+        while left > 0:
+            nb = min(left, 2000)
+            left -= nb
+            docs, results, findings, dis, missing, st = explore(run, src, exe, space, nb, limit)
+            if missing:
+                run.obligation("harness answered for every document (space %d)" % space, False,
+                               "%d documents without result, e.g. %r" % (len(missing), docs[missing[0]][:200]))
+            all_dis += dis
+            nsnap += st["snapshots"]
+            if not PASS_NAMES:
+                try:
+                    from vt.gen import c06_api
+                    PASS_NAMES.extend(c06_api.analyse(src)["cleaner_methods"])
+                except Exception:
+                    pass
+            coverage(run, space, docs, results, findings)
+            for f in findings.values():          # report each fingerprint once per run
+                f[prop] = [x for x in f[prop] if x[0] not in seen_fp]
+            seen_fp.update(report_hits(run, src, exe, space, docs, findings, prop, limit))
+            if first:
+                first = False
+                for did in sorted(results)[:2]:
+                    r = results[did]
+                    run.sample({"space": space, "wikitext": docs[did][:300], "status": r.get("status"),
+                                "passes_that_changed_the_tree": findings[did]["changed"][1:]})
+    for k in [k for k in run.notes if k.startswith("_cov")]:
+        del run.notes[k]
     run.tie("extracted wfb/contractb/cwords/table_dims vs an independent Python reading of the same snapshots", nsnap, all_dis)
     return nsnap
 
@@ -419,22 +444,31 @@ def gen_api_case(rng, cid):
         else:
             par[i] = i
     ops = []
-    total = n
-    for _ in range(rng.randint(1, 6)):
+    for _ in range(rng.randint(1, 5)):
         k = rng.random()
+        roots = [i for i in par if par[i] == 0]
+        att = [i for i in par if par[i] != 0]
+        nontext = [i for i in cls if cls[i] != 1]
         a, b = rng.randint(1, n), rng.randint(1, n)
+        good = rng.random() < 0.8
         if k < 0.22:
+            if good and roots and nontext:
+                a, b = rng.choice(nontext), rng.choice(roots)
             ops.append(["a", a, b])
         elif k < 0.4:
-            if kids[a] and rng.random() < 0.8:
-                b = rng.choice(kids[a])
+            if good and att:
+                b = rng.choice(att)
+                a = par[b]
             ops.append(["r", a, b])
         elif k < 0.6:
-            if kids[a] and rng.random() < 0.8:
-                b = rng.choice(kids[a])
-            news = kids[b][:] if rng.random() < 0.5 else rng.sample(range(1, n + 1), rng.randint(0, 2))
+            if good and att:
+                b = rng.choice(att)
+                a = par[b]
+            news = kids[b][:] if rng.random() < 0.5 else (rng.sample(roots, min(len(roots), rng.randint(0, 2))) if good else rng.sample(range(1, n + 1), rng.randint(0, 2)))
             ops.append(["x", a, b, news])
         elif k < 0.85:
+            if good and len(att) >= 2:
+                a, b = rng.sample(att, 2)
             ops.append(["m", a, b, rng.randint(0, 1)])
         elif mode >= 0.25:
             ops.append(["c", a])
